@@ -64,6 +64,9 @@ func c14RecordTraversal(c *Ctx, f srcFile, r *rand.Rand) traceItem {
 		return traceItem{}
 	}
 	tree, ids := ExportDst(df)
+	if len(tree.Nodes) > 6000 {
+		return traceItem{}
+	}
 	out := &ndjson{}
 	out.Add(obj{"ev": "tree", "tree": obj{"root": tree.Root, "nodes": tree.Nodes, "astorder": []int{}}})
 	rules := c13Rules(r, len(tree.Nodes))
